@@ -66,8 +66,11 @@ static void r_seed(rsfc *g, uint64_t seed)
 static uint64_t do_call(int kind, int64_t arg)
 {
     static const double shapes[] = { 0.5, 1.0, 2.5, 7.0 };
-    static const double probs[] = { 0.1, 0.5, 0.9, 0.25 };
+    
+    /* boundary parameters too: p = 1 is admissible for the discrete samplers and takes other paths through the cached-parameter code */
+    static const double probs8[] = { 0.1, 0.5, 0.9, 0.25, 1.0, 1.0, 0.75, 0.01 };
     const unsigned a = (unsigned)((uint64_t)arg % 4);
+    const double pb = probs8[(uint64_t)arg % 8];
     switch (((kind % NKIND) + NKIND) % NKIND) {
         case 0: return cmb_random_sfc64();
         case 1: return bits_of(cmb_random());
@@ -76,11 +79,11 @@ static uint64_t do_call(int kind, int64_t arg)
         case 4: return bits_of(cmb_random_std_exponential());
         case 5: return (uint64_t)cmb_random_flip();
         case 6: return bits_of(cmb_random_gamma(shapes[a] + 1.0, 2.0));
-        case 7: return (uint64_t)cmb_random_geometric(probs[a]);
-        case 8: return (uint64_t)cmb_random_bernoulli(probs[a]);
+        case 7: return (uint64_t)cmb_random_geometric(pb);
+        case 8: return (uint64_t)cmb_random_bernoulli(pb);
         case 9: return (uint64_t)cmb_random_dice(1, 6 + (long)a);
         case 10: return (uint64_t)cmb_random_poisson(0.5 + 3.0 * a);
-        case 11: return (uint64_t)cmb_random_binomial(3 + 5 * a, probs[a]);
+        case 11: return (uint64_t)cmb_random_binomial(3 + 5 * a, pb);
         case 12: return bits_of(cmb_random_triangular(0.0, 1.0 + a, 5.0));
         case 13: return bits_of(cmb_random_std_beta(shapes[a] + 1.0, 2.0));
         case 14: return bits_of(cmb_random_weibull(shapes[a] + 1.0, 1.5));
@@ -90,7 +93,7 @@ static uint64_t do_call(int kind, int64_t arg)
         case 18: return bits_of(cmb_random_std_gamma(shapes[a] + 1.0));
         case 19: return bits_of(cmb_random_lognormal(0.0, 0.5));
         case 20: return bits_of(cmb_random_chisquared(1.0 + a));
-        case 21: return (uint64_t)cmb_random_negative_binomial(1 + a, probs[(a + 1) % 4]);
+        case 21: return (uint64_t)cmb_random_negative_binomial(1 + a, pb);
         case 22: return bits_of(cmb_random_rayleigh(1.0 + a));
         default: return bits_of(cmb_random_PERT(0.0, 1.0 + a, 6.0));
     }
